@@ -493,7 +493,8 @@ func (setSelf *SetForInterfaceDef) Union(input *SetForInterfaceDef) *SetForInter
 // Intersection Get the Intersection with this Set and an another Set
 func (setSelf *SetForInterfaceDef) Intersection(input *SetForInterfaceDef) *SetForInterfaceDef {
 	if input == nil || input.Size() == 0 {
-		return new(SetForInterfaceDef)
+		// An empty Set(not a nil map: Set() on the result must work)
+		return &SetForInterfaceDef{}
 	}
 
 	result := SetForInterfaceDef(IntersectionMapByKeyForInterface(*setSelf, *input))
